@@ -69,6 +69,8 @@ def gen_env(rng, sym, complex_names):
             v = rng.choice([-1.0, 0.0, 0.7, 3.0])
         elif base.endswith(('_zi', '_zl', '_zu', '_z0', '_z1', '_s0', '_s1', '_s2', '_s3', '_s4', '_s5')) or base in ('u', 'ue', 'zf'):
             v = float(rng.choice([0, 1]))
+        elif r < 0.07:
+            v = 0.0          # exact zeros: the zero-divisor branch of safe_div, indicator terms at their edge
         elif r < 0.75:
             v = rng.uniform(0.2, 2.0)
         elif r < 0.9:
@@ -95,6 +97,10 @@ def call_loaded(func, args, env, sym, complex_names):
             vals.append(complex(env[sym[a + '.re']] if a + '.re' in sym else 0.0, env[sym[a + '.im']] if a + '.im' in sym else 0.0))
         else:
             vals.append(np.float64(env[sym[a]] if a in sym else 0.0))   # NumPy semantics (x/0 = inf), as in the real calls
+    # released small blocks are handed out again by NumPy's allocator cache: fill some with a sentinel first, so that a
+    # function which returns memory it never wrote (np.empty where np.zeros is meant) shows it
+    junk = [np.full(1, 1002.5) for _ in range(48)] + [np.array(1002.5) for _ in range(16)]
+    del junk
     with np.errstate(all='ignore'):
         return func(*vals)
 
